@@ -266,7 +266,7 @@ Lemma entry_resolved rs r x name v :
      (length_indexed name = true -> forall k, In k (map fst cnt) -> slen k = slen v).
 Proof.
   intros Hr (_ & _ & Hc) Hx He.
-  destruct (section_counted E rs r x name v Hr Hc Hx He) as (cnt & Hin & Hv & _ & Hlen).
+  destruct (section_counted E rs r x name v Hr Hc Hx He) as (cnt & Hin & Hv & _ & Hlen & _).
   assert (Hg : In (name, groups_of R cnt) (grammar_of R (counters_of rs))).
   { unfold grammar_of. apply in_map_iff. exists (name, cnt). split; [reflexivity|assumption]. }
   destruct (var_of_nodup _ name _ ltac:(rewrite grammar_keys; apply counters_nodup) Hg) as (var & Hvar & Hnth).
@@ -502,6 +502,54 @@ Proof.
       destruct (vars_of (grammar_of R (counters_of rs)) (flat_map names_of_label ls)) as [vb|] eqn:Eb; [|congruence].
       rewrite (vars_of_app _ _ _ va vb Ea Eb). discriminate. }
     apply (Hnames (p_sections r) (p_base r)); [auto|now apply (sections_labels E)|exact Hsup].
+Qed.
+
+
+(* every variable of a kept base structure is a non-empty tally of the counters *)
+Lemma names_entries r : parsed_ok E r -> r_supported r = true ->
+  forall name, In name (flat_map names_of_label (p_base r)) ->
+  exists x v, In x (p_sections r) /\ In (name, v) (sec_entries E x).
+Proof.
+  intros Hok Hsup. pose proof (sections_labels E r Hok) as HF. destruct Hok as (Hs & _). unfold r_supported in Hsup.
+  induction HF as [|x l sl ls Hx _ IH]; intros name Hn; [contradiction|].
+  inversion Hs as [|? ? Hsx Hss]; subst. simpl in Hsup. apply andb_true_iff in Hsup. destruct Hsup as (Hl & Hls).
+  simpl in Hn. apply in_app_iff in Hn. destruct Hn as [Hn|Hn].
+  - rewrite <- (sec_names E x l Hsx Hx Hl) in Hn. apply in_map_iff in Hn. destruct Hn as ([nm v] & <- & Hin).
+    exists x, v. split; [now left|exact Hin].
+  - destruct (IH Hss Hls name Hn) as (y & v & Hy & Hv). exists y, v. split; [now right|assumption].
+Qed.
+
+Lemma loaded_bases_names o raw rs : Forall (parsed_ok E) rs ->
+  Forall (fun b => Forall (fun name => exists items, items <> [] /\
+                             In (name, Counters.tally items) (term_counters (counters_of rs))) (snd b))
+         (loaded_bases (trained_of E o raw rs)).
+Proof.
+  intros Hrs. apply Forall_forall. intros b Hb. unfold loaded_bases in Hb. apply in_map_iff in Hb.
+  destruct Hb as ([k p] & <- & Hl). apply filter_In in Hl. destruct Hl as (Hl & HnM). cbn [fst snd].
+  assert (Hk : In k (map fst (base_file R (trained_of E o raw rs)))) by (apply in_map_iff; now exists (k, p)).
+  destruct (base_file_keys o raw rs k Hk) as [->|(r & Hr & Hsup & ->)].
+  - unfold nonM in HnM. cbn [fst] in HnM. rewrite toks_M in HnM. discriminate.
+  - rewrite Forall_forall in Hrs. pose proof (Hrs r Hr) as Hok.
+    rewrite (toks_structure r Hok), insert_caps_labels. apply Forall_forall. intros name Hn.
+    destruct (names_entries r Hok Hsup name Hn) as (x & v & Hx & Hv). destruct Hok as (_ & _ & Hc).
+    destruct (section_counted E rs r x name v Hr Hc Hx Hv) as (cnt & Hin & _ & Hne & _ & items & ->).
+    exists items. split; [|assumption]. intros ->. now apply Hne.
+Qed.
+
+(* the groups and group sizes of a variable, by name *)
+Lemma loaded_var_groups rs bl name cnt var :
+  In (name, cnt) (term_counters (counters_of rs)) -> var_of (grammar_of R (counters_of rs)) name = Some var ->
+  groups {| tbl := map (fun e => map snd (snd e)) (grammar_of R (counters_of rs)); bases := bl |} var
+    = map snd (groups_of R cnt) /\
+  nth var (sizes_of (grammar_of R (counters_of rs))) [] = map (fun gr => length (fst gr)) (groups_of R cnt).
+Proof.
+  intros Hin Hvar.
+  assert (Hg : In (name, groups_of R cnt) (grammar_of R (counters_of rs))).
+  { unfold grammar_of. apply in_map_iff. exists (name, cnt). split; [reflexivity|assumption]. }
+  destruct (var_of_nodup _ name _ ltac:(rewrite grammar_keys; apply counters_nodup) Hg) as (var' & Hvar' & Hnth).
+  rewrite Hvar in Hvar'. injection Hvar' as <-. unfold groups, sizes_of. cbn [tbl]. split.
+  - now rewrite (nth_error_map_nth _ _ _ _ [] Hnth).
+  - now rewrite (nth_error_map_nth _ _ _ _ [] Hnth).
 Qed.
 
 (* the closed form of what the guesser holds after loading the saved ruleset *)
